@@ -5,7 +5,7 @@ sys.dont_write_bytecode = True
 sys.path.insert(0, os.path.dirname(os.path.dirname(os.path.abspath(__file__))))
 from sa.index import RepoIndex
 from sa.interp import extract
-args = sys.argv[1:]
+args = [a for a in sys.argv[1:] if a != '--signals']
 repo = '/repo'
 if '--repo' in args:
     i = args.index('--repo'); repo = args[i + 1]; del args[i:i + 2]
